@@ -3,7 +3,6 @@ use std::fs::File;
 use std::ops::Bound;
 use std::sync::Arc;
 
-use crossbeam_skiplist::SkipSet;
 use parking_lot::RwLockReadGuard;
 
 use crate::bplustree::tree::{BPlusTreeIterator, DiskBPlusTree};
@@ -40,7 +39,11 @@ use crate::{
 /// search. Versions visible to snapshots are preserved unless hidden by a newer
 /// version in the same visibility boundary.
 pub(crate) struct SnapshotTracker {
-	snapshots: Arc<SkipSet<u64>>,
+	// seq_num -> number of live snapshots registered at that seq_num.
+	// Several transactions routinely share a start point (nothing committed
+	// in between), so registrations are counted: the seq_num stays tracked
+	// until the last snapshot at it is dropped.
+	snapshots: Arc<parking_lot::Mutex<std::collections::BTreeMap<u64, usize>>>,
 }
 
 impl Clone for SnapshotTracker {
@@ -67,7 +70,7 @@ impl SnapshotTracker {
 	/// Creates a new empty snapshot tracker.
 	pub(crate) fn new() -> Self {
 		Self {
-			snapshots: Arc::new(SkipSet::new()),
+			snapshots: Arc::new(parking_lot::Mutex::new(std::collections::BTreeMap::new())),
 		}
 	}
 
@@ -77,7 +80,7 @@ impl SnapshotTracker {
 	/// to the tracking set, ensuring compaction will preserve versions
 	/// visible to this snapshot.
 	pub(crate) fn register(&self, seq_num: u64) {
-		self.snapshots.insert(seq_num);
+		*self.snapshots.lock().entry(seq_num).or_insert(0) += 1;
 	}
 
 	/// Unregisters a snapshot with the given sequence number.
@@ -86,7 +89,13 @@ impl SnapshotTracker {
 	/// a certain sequence number are dropped, older versions become eligible
 	/// for garbage collection during compaction.
 	pub(crate) fn unregister(&self, seq_num: u64) {
-		self.snapshots.remove(&seq_num);
+		let mut g = self.snapshots.lock();
+		if let Some(n) = g.get_mut(&seq_num) {
+			*n -= 1;
+			if *n == 0 {
+				g.remove(&seq_num);
+			}
+		}
 	}
 
 	/// Returns all active snapshots as a sorted vector.
@@ -94,14 +103,14 @@ impl SnapshotTracker {
 	/// This is the primary method used by compaction. The returned vector
 	/// is sorted in ascending order.
 	pub(crate) fn get_all_snapshots(&self) -> Vec<u64> {
-		self.snapshots.iter().map(|entry| *entry).collect()
+		self.snapshots.lock().keys().copied().collect()
 	}
 
 	/// Returns the smallest active snapshot seq, if any. O(log N) via
-	/// `SkipSet::front`. Used by the commit oracle to compute its GC
+	/// the ordered map. Used by the commit oracle to compute its GC
 	/// watermark on every commit.
 	pub(crate) fn first(&self) -> Option<u64> {
-		self.snapshots.front().map(|e| *e.value())
+		self.snapshots.lock().keys().next().copied()
 	}
 }
 
